@@ -14,6 +14,7 @@ import Cascette.Model.SerialPatchIndex
 import Cascette.Model.SerialTvfs
 import Cascette.Model.RootFile
 import Cascette.Model.ArchiveIndex
+import Cascette.Model.SerialBuilders
 open Drv Cascette Cascette.Model.Manifest Cascette.Model.Serial
 open Cascette.Model.SerialPatchIndex
 
@@ -157,6 +158,127 @@ def apLine (ks ob : Nat) (es : List Cascette.Model.ArchiveIndex.Entry) : String 
         s!"{hexOfNats e.key}:{e.size}:{e.offset}:{match e.archive with | some a => toString a | none => "-"}")
       s!"ok n={c2.entries.length} h={hexFixed 16 (fnv64N (listing.toUTF8.toList.map (·.toNat))).toNat}"
 
+/-! ### `bp` lines: builder programs given by parameters -/
+
+open Cascette.Model.SerialBuilders in
+/-- id-derived data, the same functions of the id as in the harness -/
+def dkey (id : Nat) : Bytes :=
+  let w := id * 2654435761 % 4294967296
+  ([w / 16777216 % 256, w / 65536 % 256, w / 256 % 256, w % 256] ++
+    (List.range 12).map fun j => (id * 17 + 29 * (j + 4) + 3) % 256).map (BitVec.ofNat 8)
+
+def strBytes (s : String) : Bytes := s.toUTF8.toList.map fun b => BitVec.ofNat 8 b.toNat
+
+def dpath (id : Nat) : Bytes := strBytes s!"d\\f{id}.bin"
+
+def dsize32 (id : Nat) : Nat :=
+  if id % 5 = 0 then 0 else if id % 5 = 1 then 4294967295 else id * 2654435761 % 4294967296
+
+def dtag (id : Nat) : Bytes := strBytes s!"T{id}"
+
+/-- `<a>.<b>` -/
+def two (t : String) : Option (Nat × Nat) :=
+  match t.splitOn "." with
+  | [a, b] => match a.toNat?, b.toNat? with
+    | some a, some b => some (a, b)
+    | _, _ => none
+  | _ => none
+
+inductive IOp
+  | af (id : Nat) | aw (id tj : Nat) | rf (i : Nat) | at (id ty : Nat) | rt (tj : Nat)
+  | as (i tj : Nat) | ds (i tj : Nat)
+
+def parseIOp (o : String) : Option IOp :=
+  let k := (o.take 2).toString
+  let r := (o.drop 2).toString
+  if r.isEmpty then none else
+  if k == "af" then r.toNat?.map .af
+  else if k == "rf" then r.toNat?.map .rf
+  else if k == "rt" then r.toNat?.map .rt
+  else if k == "aw" then (two r).map fun (a, b) => .aw a b
+  else if k == "at" then (two r).map fun (a, b) => .at a b
+  else if k == "as" then (two r).map fun (a, b) => .as a b
+  else if k == "ds" then (two r).map fun (a, b) => .ds a b
+  else none
+
+open Cascette.Model.SerialBuilders in
+/-- one editing call; an op whose indices do not exist is skipped (as the harness skips it) -/
+def iStep (s : IBuilderS) : IOp → Except Err IBuilderS
+  | .af id => .ok (s.addFile (dpath id) (dkey id) (dsize32 id))
+  | .aw id tj =>
+    match s.b.tags[tj]? with
+    | none => .ok s
+    | some t =>
+      let s1 := s.addFile (dpath id) (dkey id) (dsize32 id)
+      s1.lift fun b => b.assoc (b.entries.length - 1) t.name
+  | .rf i => if i < s.b.entries.length then s.lift (·.removeFile i) else .ok s
+  | .at id ty =>
+    if validType ty ∧ ¬ s.b.tags.any (·.name == dtag id) then .ok { s with b := s.b.addTag (dtag id) ty }
+    else .ok s
+  | .rt tj =>
+    match s.b.tags[tj]? with
+    | none => .ok s
+    | some t => s.lift (·.removeTag t.name)
+  | .as i tj =>
+    match s.b.tags[tj]? with
+    | some t => if i < s.b.entries.length then s.lift (·.assoc i t.name) else .ok s
+    | none => .ok s
+  | .ds i tj =>
+    match s.b.tags[tj]? with
+    | some t => if i < s.b.entries.length then s.lift (·.dissoc i t.name) else .ok s
+    | none => .ok s
+
+open Cascette.Model.SerialBuilders in
+def iRun (s : IBuilderS) : List IOp → Except Err IBuilderS
+  | [] => .ok s
+  | o :: os => match iStep s o with
+    | .ok s' => iRun s' os
+    | .error e => .error e
+
+open Cascette.Model.SerialBuilders in
+/-- `bp install <new|hex> <ops>` -/
+def bpInstall (src ops : String) : String :=
+  let ops? : Option (List IOp) := if ops == "-" then some [] else (ops.splitOn ",").mapM parseIOp
+  let start? : Option (Option IBuilderS) :=
+    if src == "new" then some (some IBuilderS.new) else
+    match parseHex src with
+    | none => none
+    | some b => some ((parseInstallU b).map IBuilderS.fromManifest)
+  match ops?, start? with
+  | some ops, some (some s) =>
+    (match iRun s ops with
+     | .error _ => "err"
+     | .ok s' =>
+       match s'.build with
+       | .error _ => "err"
+       | .ok m =>
+         let y := serInstall m
+         s!"ok v={m.version} t={m.tags.length} e={m.entries.length} n={y.length} h={hexFixed 16 (fnv64 y).toNat}")
+  | some _, some none => "err"
+  | _, _ => "bad-op"
+
+open Cascette.Model.SerialBuilders in
+/-- `bp blte <c|d|x> <n|z|4> <chunks> <len>` -/
+def bpBlte (via mode : String) (n len : Nat) : String :=
+  if n = 0 ∨ len = 0 ∨ n ≥ 16777216 ∨ ¬ ["c", "d", "x"].contains via ∨ ¬ ["n", "z", "4"].contains mode then "bad-op" else
+  match blteHead (via == "x") n with
+  | .error _ => "err"
+  | .ok h =>
+    let hs := Cascette.Model.Blte.beNat ((h.drop 4).take 4)
+    s!"ok hs={hs} tbl={if hs = 0 then "-" else hexOf ((h.drop 8).take 4)}"
+
+open Cascette.Model.SerialBuilders in
+/-- `bp tvfs <flags> <nspecs> <speclen> <files>` -/
+def bpTvfs (flags ns sl n : Nat) : String :=
+  if flags ≥ 8 ∨ ns * (sl + 1) ≥ 16777216 ∨ n ≥ 16777216 then "bad-op" else
+  let estSize := if flags / 2 % 2 = 1 then ns * (max sl 1 + 1) else 0
+  let (es, cft, w, last) := tvfsSizing flags estSize n
+  s!"ok es={es} cft={cft} w={w} last={last}"
+
+def bpOracleOnly : List String :=
+  ["download", "installw", "downloadw", "sizew", "rootw", "aidxw", "agroupw", "encodingw", "parchivew",
+   "pindexw", "zbsw", "bpsvw", "especw", "archivew"]
+
 def formats : List String :=
   ["blte", "encoding", "aidx", "agroup", "root", "install", "download", "size", "tvfs", "parchive",
    "pindex", "zbsdiff", "buildcfg", "cdncfg", "patchcfg", "productcfg", "keyring", "bpsv", "espec"]
@@ -201,6 +323,16 @@ def handle (toks : List String) : String :=
     match f.toNat?, parseHexNat h with
     | some fl, some d => if fl < 2 then tcLine fl d else "bad-op"
     | _, _ => "bad-op"
+  | ["bp", "install", src, ops] => bpInstall src ops
+  | ["bp", "blte", via, mode, n, len] =>
+    match n.toNat?, len.toNat? with
+    | some n, some len => bpBlte via mode n len
+    | _, _ => "bad-op"
+  | ["bp", "tvfs", f, ns, sl, n] =>
+    match f.toNat?, ns.toNat?, sl.toNat?, n.toNat? with
+    | some f, some ns, some sl, some n => bpTvfs f ns sl n
+    | _, _, _, _ => "bad-op"
+  | "bp" :: fmt :: _ => if bpOracleOnly.contains fmt then "-" else "bad-op"
   | ["o", fmt, _] => if formats.contains fmt then "-" else "bad-op"
   | ["of", fmt, _, _] => if formats.contains fmt then "-" else "bad-op"
   | _ => "bad-op"
